@@ -285,6 +285,11 @@ def dataset_recipes(tier, rng):
             if tier != "thorough" and how == "file-minimal" and gi % 2:
                 continue
             out.append({"kind": "gen", "gen": gen, "grid_n": 3 + gi % 2, "n": 4, "seed": int(rng.integers(0, 10 ** 6)), "meta": "permaze", "reread": how})
+    # configurations that record endpoint options (coordinate lists, flags, None) - the loaded configuration must be an EQUAL configuration
+    for gi, (gen, ek) in enumerate([("gen_dfs", {"allowed_start": [[0, 0]], "allowed_end": [[1, 1], [0, 1]]}),
+                                    ("gen_wilson", {"allowed_start": [[0, 0], [1, 0]], "deadend_end": True, "except_on_no_valid_endpoint": False}),
+                                    ("gen_prim", {"allowed_end": [[0, 0]], "allowed_start": None, "endpoints_not_equal": True})]):
+        out.append({"kind": "hand" if gi == 2 else "gen", "gen": gen, "name": f"endpoints-{gi}", "grid_n": 3, "n": 3, "lengths": [2, 3, 1], "seed": int(rng.integers(0, 10 ** 6)), "meta": "permaze", "endpoint_kwargs": ek})
     # empty datasets (stale configured count too)
     out.append({"kind": "empty", "name": "empty-ds", "grid_n": 3})
     out.append({"kind": "empty", "name": "empty-ds-stale-count", "grid_n": 2, "n_cfg": 5})
@@ -335,7 +340,7 @@ def run(tier, seed):
         rule="datasets from all five generators x grid_n 2..6 x lengths "
         + ("1..8" if tier == "thorough" else "a subset of 1..8 per grid")
         + " plus 99/100/101/120 mazes around the default threshold, EMPTY datasets under thresholds {None,0,1,default} in memory and through a file, and hand-made SolvedMaze lists (mixed lengths, length-1 start==end, length-2, longest first/last, "
-        "all-equal, full-grid snakes), and SECOND-GENERATION datasets (first saved to and read from a full-format / minimal-format file, then put through every format again); metadata modes per-maze / collected / none / empty-collected; EACH written and read back as: "
+        "all-equal, full-grid snakes), and SECOND-GENERATION datasets (first saved to and read from a full-format / minimal-format file, then put through every format again); metadata modes per-maze / collected / none / empty-collected; configurations recording endpoint options (coordinate lists, flags, None); EACH written and read back as: "
         "serialize()+load() under set_serialize_minimal_threshold in {None,1,len,len+1} (selected format checked: minimal iff threshold is not None and len>=threshold), "
         "explicit _serialize_full/_load_full, _serialize_minimal/_load_minimal, _serialize_minimal_soln_cat/_load_minimal_soln_cat (explicit minimal formats skipped for "
         "datasets with no metadata at all), and save()/read() through a real .zanj file under thresholds None (full), 1 (minimal) and the default; "
